@@ -66,7 +66,41 @@ func (p *Program) knownFunctions() []kfRow {
 		return false
 	})
 	if len(rows) == 0 {
-		fatalf("anchor not found: knownFunctions map literal in initKnownFunctions")
+		// alternative idiom: helper calls of the form register(&functionRewrite{...}, "name", "alias")
+		ast.Inspect(fd.Body, func(n ast.Node) bool {
+			call, ok := n.(*ast.CallExpr)
+			if !ok || len(call.Args) < 2 {
+				return true
+			}
+			lit := litOf(call.Args[0])
+			if lit == nil || !strings.HasSuffix(TypeStr(info.TypeOf(lit)), "functionRewrite") {
+				return true
+			}
+			for _, a := range call.Args[1:] {
+				name, ok := constString(info, a)
+				if !ok {
+					continue
+				}
+				row := kfRow{Name: name, Pos: call.Pos()}
+				if w := litField(info, lit, "write"); w != nil {
+					row.Write, _ = objOf(info, w).(*types.Func)
+				}
+				if np := litField(info, lit, "needsParens"); np != nil {
+					if v := constOf(info, np); v != nil {
+						row.NeedsParens = constant.BoolVal(v)
+					}
+				}
+				if row.Write != nil {
+					if row.Decl = p.FuncDecl(pkg, row.Write.Name()); row.Decl != nil {
+						rows = append(rows, row)
+					}
+				}
+			}
+			return true
+		})
+	}
+	if len(rows) == 0 {
+		fatalf("anchor not found: knownFunctions table (map literal or register(...) calls) in initKnownFunctions")
 	}
 	sort.Slice(rows, func(i, j int) bool { return rows[i].Name < rows[j].Name })
 	return rows
@@ -428,6 +462,70 @@ func ruleC13Pair(p *Program, r *Run) {
 	r.Floor("C13/pair", 7)
 	r.Floor("C13/single", 2)
 
+	// every parsed statement is looked at: the statement loop is never left early except with an error
+	var stmtLoop *ast.RangeStmt
+	ast.Inspect(fd.Body, func(n ast.Node) bool {
+		if rs, ok := n.(*ast.RangeStmt); ok && stmtLoop == nil {
+			if sl, ok := info.TypeOf(rs.X).Underlying().(*types.Slice); ok && TypeStr(sl.Elem()) == "parser.Statement" {
+				stmtLoop = rs
+			}
+		}
+		return true
+	})
+	if stmtLoop == nil {
+		r.Fail("C13/all-statements", fn+" statement loop", p.Pos(fd.Pos()), "no loop over the parsed statements found")
+	} else {
+		var bad []string
+		var walk func(n ast.Node, inSwitch int)
+		walk = func(n ast.Node, inSwitch int) {
+			ast.Inspect(n, func(x ast.Node) bool {
+				switch v := x.(type) {
+				case *ast.FuncLit:
+					return false
+				case *ast.BranchStmt:
+					if v.Tok == token.BREAK && v.Label != nil {
+						bad = append(bad, "labelled break at "+p.Pos(v.Pos()))
+					}
+					if v.Tok == token.GOTO {
+						bad = append(bad, "goto at "+p.Pos(v.Pos()))
+					}
+				case *ast.ForStmt, *ast.RangeStmt:
+					if x != ast.Node(stmtLoop) {
+						return true
+					}
+				case *ast.ReturnStmt:
+					if len(v.Results) == 2 && isNilIdent(info, v.Results[1]) {
+						bad = append(bad, "success return inside the loop at "+p.Pos(v.Pos()))
+					}
+				}
+				return true
+			})
+		}
+		walk(stmtLoop.Body, 0)
+		// an unlabelled break directly in the loop body (not inside a switch/select/inner loop) leaves the loop too
+		var direct func(list []ast.Stmt)
+		direct = func(list []ast.Stmt) {
+			for _, s := range list {
+				switch v := s.(type) {
+				case *ast.BranchStmt:
+					if v.Tok == token.BREAK && v.Label == nil {
+						bad = append(bad, "break at "+p.Pos(v.Pos()))
+					}
+				case *ast.IfStmt:
+					direct(v.Body.List)
+					if blk, ok := v.Else.(*ast.BlockStmt); ok {
+						direct(blk.List)
+					}
+				case *ast.BlockStmt:
+					direct(v.List)
+				}
+			}
+		}
+		direct(stmtLoop.Body.List)
+		r.Check(len(bad) == 0, "C13/all-statements", fn+" statement loop visits every statement", p.Pos(stmtLoop.Pos()), "the loop over the parsed statements is only left early by returning an error", "the loop over the parsed statements can be left before all statements were seen ("+strings.Join(bad, "; ")+"): a second query (or anything else) after that point is silently ignored")
+	}
+	r.Floor("C13/all-statements", 1)
+
 	// the package-level Compile only forwards
 	top := p.MustFunc(pkg, "Compile")
 	okFwd := false
@@ -645,6 +743,14 @@ func ruleC13Gates(p *Program, r *Run) {
 	e.FlushSites(r)
 	r.Floor("C13/gate-let", 1)
 	r.Floor("C13/gate-join", 1)
+	// the mode of an expression context is fixed when it is built
+	sums := p.Summaries()
+	st := StructOf(p.Named(pkg, "exprContext"))
+	for i := 0; i < st.NumFields(); i++ {
+		f := st.Field(i)
+		r.Check(sums.IsFrozen(f), "C13/ctx-immutable", "pql.exprContext."+f.Name()+" is never reassigned", p.Pos(f.Pos()), "set only in composite literals", "exprContext."+f.Name()+" is assigned after construction: a context shared between positions (e.g. the query-wide one) can change mode or scope under the writer, so the let/join gates no longer guard what they appear to guard")
+	}
+	r.Floor("C13/ctx-immutable", 3)
 }
 
 // ---- C13/parser-checks: join kind and row count validation in the parser.
